@@ -256,6 +256,11 @@ def run(tier, seed):
         for ref in (b"\xd8\x1d\x00", b"\xa1\x61\x61\xd8\x1d\x00", b"\x81\xd8\x1d\x00"):
             key = b"\xa5\x01\x02\x03\x26\x20\x01\x21" + marked + b"\x22\x58\x20" + bytes(32)
             run_one(rng.randbytes(32) + b"\xc1" + b"\x00\x00\x00\x01" + bytes(16) + b"\x00\x02id" + key + ref, "shared-reference-from-extensions-into-the-key", "reject")
+    # ... also when the key's length happens to survive re-encoding (two dropped tag-28 headers = 4 bytes, compensated by a float32 member that re-encodes as float64: + 4 bytes)
+    for ref in (b"\xa1\x61\x61\xd8\x1d\x00", b"\xd8\x1d\x01", b"\x82\xd8\x1d\x00\xd8\x1d\x01"):
+        x_, y_ = bytes(range(1, 33)), bytes(range(33, 65))
+        key = bytes.fromhex("a6010203262001") + b"\x21\xd8\x1c\x58\x20" + x_ + b"\x22\xd8\x1c\x58\x20" + y_ + bytes.fromhex("1863fa3fc00000")
+        run_one(rng.randbytes(32) + b"\xc1" + b"\x00\x00\x00\x07" + bytes(16) + b"\x00\x04" + b"\xde\xad\xbe\xef" + key + ref, "shared-reference-from-extensions-into-a-length-preserving-key", "reject")
     # the byte string may arrive as a view into a larger buffer (a window of the attestation object, of a network buffer): the result is that of the bytes it covers
     for i in range(40 if quick else 400):
         b, exp = cborgen.layout(rng)
